@@ -22,4 +22,92 @@ theorem C17_tables :
 theorem C17_levels : Gen.CLI_LEVELS.lookup "L" = some Gen.ERROR_CORRECT_L ∧ Gen.CLI_LEVELS.lookup "M" = some Gen.ERROR_CORRECT_M ∧
     Gen.CLI_LEVELS.lookup "Q" = some Gen.ERROR_CORRECT_Q ∧ Gen.CLI_LEVELS.lookup "H" = some Gen.ERROR_CORRECT_H := by decide
 
+/-- the shape of every non-failing outcome of `cli` -/
+private theorem cli_cases (i : CliInput) :
+    (cli i = .fail ∧ (Gen.CLI_LEVELS.lookup i.level = none ∨ factoryOK i = false ∨ drawerOK i = false)) ∨
+    (∃ l, Gen.CLI_LEVELS.lookup i.level = some l ∧ factoryOK i = true ∧ drawerOK i = true ∧
+      ((∃ path, i.output = some path ∧ cli i = .image i.factory i.drawer l (segsOf i) (.file path)) ∨
+       (i.output = none ∧ (i.factory.isNone && (i.stdoutIsTty || i.ascii)) = true ∧
+          cli i = .ascii (!i.ascii) l (segsOf i)) ∨
+       (i.output = none ∧ (i.factory.isNone && (i.stdoutIsTty || i.ascii)) = false ∧
+          cli i = .image i.factory i.drawer l (segsOf i) .stdout))) := by
+  cases hl : Gen.CLI_LEVELS.lookup i.level with
+  | none => left; simp [cli, hl]
+  | some l =>
+    cases hf : factoryOK i with
+    | false => left; simp [cli, hl, hf]
+    | true =>
+      cases hd : drawerOK i with
+      | false => left; simp [cli, hl, hf, hd]
+      | true =>
+        right
+        refine ⟨l, rfl, rfl, rfl, ?_⟩
+        cases ho : i.output with
+        | some path => left; exact ⟨path, rfl, by simp [cli, hl, hf, hd, ho]⟩
+        | none =>
+          right
+          cases hc : (i.factory.isNone && (i.stdoutIsTty || i.ascii)) with
+          | true => left; exact ⟨rfl, rfl, by simp only [cli, hl, hf, hd, ho, hc]; simp⟩
+          | false => right; exact ⟨rfl, rfl, by simp only [cli, hl, hf, hd, ho, hc]; simp⟩
+
+theorem segsOf_flatMap_data (i : CliInput) : (segsOf i).flatMap (·.data) = i.arg.getD i.stdin :=
+  _root_.QR.addData_flatMap_data _ _
+
+/-- **options**: what reaches the library is exactly what was given on the command line -/
+theorem C17_options (i : CliInput) :
+    (∀ f d l segs s, cli i = .image f d l segs s →
+      Gen.CLI_LEVELS.lookup i.level = some l ∧ f = i.factory ∧ d = i.drawer ∧ segs = segsOf i) ∧
+    (∀ tty l segs, cli i = .ascii tty l segs →
+      Gen.CLI_LEVELS.lookup i.level = some l ∧ tty = (!i.ascii) ∧ segs = segsOf i) := by
+  rcases cli_cases i with ⟨h, _⟩ | ⟨l, hl, _, _, ⟨path, _, h⟩ | ⟨_, _, h⟩ | ⟨_, _, h⟩⟩ <;>
+    rw [h] <;> refine ⟨?_, ?_⟩ <;> intros <;> simp_all
+
+/-- **payload**: the segments handed to the encoder carry exactly the argument, or else exactly standard input -/
+theorem C17_payload (i : CliInput) :
+    (∀ tty l segs, cli i = .ascii tty l segs → segs.flatMap (·.data) = i.arg.getD i.stdin) ∧
+    (∀ f d l segs s, cli i = .image f d l segs s → segs.flatMap (·.data) = i.arg.getD i.stdin) := by
+  refine ⟨?_, ?_⟩
+  · intro tty l segs h
+    rw [((C17_options i).2 tty l segs h).2.2]; exact segsOf_flatMap_data i
+  · intro f d l segs s h
+    rw [((C17_options i).1 f d l segs s h).2.2.2]; exact segsOf_flatMap_data i
+
+/-- **rejection**: an unknown level letter, an unusable factory or a drawer the factory does not have: failure -/
+theorem C17_reject (i : CliInput)
+    (h : Gen.CLI_LEVELS.lookup i.level = none ∨ factoryOK i = false ∨ drawerOK i = false) : cli i = .fail := by
+  rcases cli_cases i with ⟨h', _⟩ | ⟨l, hl, hf, hd, _⟩
+  · exact h'
+  · rw [hl, hf, hd] at h; simp at h
+
+/-- ... and these are the only failures -/
+theorem C17_fail_iff (i : CliInput) :
+    cli i = .fail ↔
+      (Gen.CLI_LEVELS.lookup i.level = none ∨ factoryOK i = false ∨ drawerOK i = false) := by
+  refine ⟨fun h => ?_, C17_reject i⟩
+  rcases cli_cases i with ⟨_, h'⟩ | ⟨l, _, _, _, ⟨path, _, h'⟩ | ⟨_, _, h'⟩ | ⟨_, _, h'⟩⟩
+  · exact h'
+  all_goals rw [h'] at h; cases h
+
+/-- **sink independence**: when an image is written, `--output` only changes where it goes -/
+theorem C17_sink_independent (i : CliInput) (path : String) (f d l segs)
+    (h : cli { i with output := some path } = .image f d l segs (.file path))
+    (hc : i.factory.isSome ∨ (i.stdoutIsTty = false ∧ i.ascii = false)) :
+    cli { i with output := none } = .image f d l segs .stdout := by
+  have hcond : ((i.factory.isNone && (i.stdoutIsTty || i.ascii))) = false := by
+    rcases hc with hc | ⟨h1, h2⟩
+    · cases hf : i.factory with
+      | none => rw [hf] at hc; cases hc
+      | some _ => rfl
+    · rw [h1, h2]; simp
+  rcases cli_cases { i with output := some path } with ⟨h', _⟩ | ⟨l', hl, hf, hd, hrest⟩
+  · rw [h'] at h; cases h
+  · obtain ⟨hl0, hf0, hd0, hs0⟩ := (C17_options _).1 f d l segs _ h
+    subst hf0 hd0 hs0
+    have hl' : Gen.CLI_LEVELS.lookup i.level = some l := hl0
+    have hf' : factoryOK { i with output := none } = true := hf
+    have hd' : drawerOK { i with output := none } = true := hd
+    simp only [cli, hl', hf', hd', hcond]
+    simp
+    rfl
+
 end QR.Props
